@@ -17,11 +17,11 @@ for sid in sorted(os.listdir(os.path.join(V, "seeded"))):
         ev = json.load(open(os.path.join(s, "evidence", prop + ".json")))
         lines = [l for l in r.stdout.splitlines() if l.startswith(("VIOLATION", "KNOWN", "HARNESS", "["))]
         res = {"check": f"./run_check.sh {prop} quick (VERIF_REPO_SRC = scratch copy of /repo/src with patch.diff applied)", "exit": r.returncode, "detected": r.returncode == 1,
-               "fingerprints": ev["coverage"].get("new_violation_fingerprints"), "wall_s": round(time.time() - t0, 1), "output": lines[:6]}
+               "fingerprints": ev["coverage"].get("new_violation_fingerprints"), "violating_runs_by_fingerprint": ev["coverage"].get("violating_runs_by_fingerprint"), "runs": ev["coverage"].get("run_index_range", [0, -1])[1] + 1, "verif_seed": ev["seed"], "wall_s": round(time.time() - t0, 1), "output": lines[:6]}
     finally:
         shutil.rmtree(s, ignore_errors=True)
     mp = os.path.join(d, "meta.json")
     meta = json.load(open(mp)) if os.path.exists(mp) else {}
     meta["evaluation"] = res
     json.dump(meta, open(mp, "w"), indent=1)
-    print(sid, res["detected"], res["fingerprints"], res["wall_s"])
+    print(sid, res["detected"], res["violating_runs_by_fingerprint"], "of", res["runs"], "runs", res["wall_s"])
